@@ -537,3 +537,56 @@ pub fn truncate_case(rng: &mut Rng, idx: usize) -> Case {
     let owners = if rng.chance(1, 12) { vec![Owner::Public; inputs.len()] } else { gen_owners(inputs.len(), rng) };
     Case { prog, owners, outputs: gen_outputs(rng), inline: gen_inline(rng), inputs }
 }
+
+// ---------------------------------------------------------------------------------------------
+// Compositions: table operations followed by arithmetic on their columns (C01/C02 workloads)
+// ---------------------------------------------------------------------------------------------
+
+pub fn composed_table_case(rng: &mut Rng) -> Option<Case> {
+    match rng.below(8) {
+        0 => {
+            // join, then arithmetic on a payload / key column of the result
+            let (mut case, jc) = join_case(rng, 3);
+            let cols: Vec<&ColSpec> = jc.t0.cols.iter().filter(|c| c.st != BIT).collect();
+            if cols.is_empty() || jc.masked {
+                return Some(case);
+            }
+            let c = (*rng.pick(&cols)).clone();
+            let g = case.prog.main_mut();
+            g.steps.push(Step { op: Operation::NamedTupleGet(c.name.clone()), deps: vec![2], gdeps: vec![] });
+            g.steps.push(Step { op: if rng.chance(1, 2) { Operation::Add } else { Operation::Multiply }, deps: vec![3, 3], gdeps: vec![] });
+            g.steps.push(Step { op: Operation::Sum(vec![0]), deps: vec![4], gdeps: vec![] });
+            g.output = if rng.chance(1, 2) { 5 } else { 4 };
+            Some(case)
+        }
+        1..=4 => {
+            // sort, then arithmetic on a column
+            let (mut case, sc) = sort_case(rng);
+            let cols: Vec<&ColSpec> = sc.cols.iter().filter(|c| c.name != sc.key_name && c.st != BIT).collect();
+            if cols.is_empty() {
+                return Some(case);
+            }
+            let c = (*rng.pick(&cols)).clone();
+            let g = case.prog.main_mut();
+            g.steps.push(Step { op: Operation::NamedTupleGet(c.name.clone()), deps: vec![1], gdeps: vec![] });
+            g.steps.push(Step { op: Operation::CumSum(0), deps: vec![2], gdeps: vec![] });
+            g.steps.push(Step { op: Operation::Multiply, deps: vec![3, 2], gdeps: vec![] });
+            g.output = 2 + rng.usize_below(3);
+            Some(case)
+        }
+        _ => {
+            // permutation with a public permutation inside arithmetic
+            let (mut case, pc) = perm_case(rng);
+            case.owners[1] = Owner::Public;
+            if pc.col.st == BIT {
+                return Some(case);
+            }
+            let last = case.prog.main().steps.len() - 1;
+            let g = case.prog.main_mut();
+            g.steps.push(Step { op: Operation::Multiply, deps: vec![last, 0], gdeps: vec![] });
+            g.steps.push(Step { op: Operation::Add, deps: vec![last + 1, last], gdeps: vec![] });
+            g.output = last + 1 + rng.usize_below(2);
+            Some(case)
+        }
+    }
+}
